@@ -45,13 +45,16 @@ Damage(f) == Cardinality({d \in Dims : f[d] # Undamaged[d]})
 (* ---- abstract chain walk --------------------------------------------------*)
 (* nodes: the three records, "nil" (offset 0: end of chain), "bad" (an offset  *)
 (* that is not a record position inside the file)                              *)
+(* V lives on the second page: after a truncation to one page its offset lies  *)
+(* beyond the file                                                              *)
+VNode(f) == IF f.trunc = "onepage" THEN "bad" ELSE "V"
 HeadOf(f, bucket) ==
     IF bucket = "bE" THEN (IF f.headE = "ok" THEN "C" ELSE IF f.headE = "zero" THEN "nil" ELSE "bad")
-    ELSE (IF f.headN = "zero" THEN "nil" ELSE IF f.headN = "valid" THEN "V" ELSE "bad")
+    ELSE (IF f.headN = "zero" THEN "nil" ELSE IF f.headN = "valid" THEN VNode(f) ELSE "bad")
 NextOf(f, node) ==
     CASE node = "C" -> (CASE f.nextC = "ok" -> "E" [] f.nextC = "zero" -> "nil" [] f.nextC = "self" -> "C"
-                          [] f.nextC = "other" -> "V" [] OTHER -> "bad")
-      [] node = "E" -> (CASE f.nextE = "ok" -> "nil" [] f.nextE = "other" -> "V" [] f.nextE = "self" -> "E"
+                          [] f.nextC = "other" -> VNode(f) [] OTHER -> "bad")
+      [] node = "E" -> (CASE f.nextE = "ok" -> "nil" [] f.nextE = "other" -> VNode(f) [] f.nextE = "self" -> "E"
                           [] f.nextE = "cycle2" -> "C" [] OTHER -> "bad")
       [] node = "V" -> "nil"
 (* a record whose name length is 0 or runs past the file is not a record *)
@@ -80,12 +83,12 @@ TooShort(f)      == f.trunc \in {"zero", "pageminus1"}
 ExpectOpen(f)    == IF TooShort(f) \/ HeaderMatches(f) THEN "opens" ELSE "parks"
 
 (* where a new record would go *)
-AllocClass(f) == CASE f.limit = "ok" -> "persist"
+AllocClass(f) == CASE f.limit = "ok" /\ f.trunc = "none" -> "persist"
                    [] f.limit \in {"hdr", "table"} -> "memory"     \* the limit must lie above the hash table
                    [] OTHER -> "any"                                \* 0 with records present, below a record, unaligned, beyond the file
 ExpectMode(f, op) ==
     IF ExpectOpen(f) = "parks" THEN "memory"
-    ELSE IF f.trunc # "none" THEN "any"          \* records may have been cut off; the limit may point beyond the file
+    ELSE IF TooShort(f) THEN "any"               \* the file is set up again; what it still holds is not specified
     ELSE LET r == Lookup(f, op) IN
          CASE r[1] = "invalid" -> "memory"
            [] r[1] = "cycle"   -> "any"           \* must return; nothing more is promised
@@ -98,15 +101,28 @@ ExpectUntouched(f) == ExpectOpen(f) = "parks"
 Expected(f, op) == [open |-> ExpectOpen(f), mode |-> ExpectMode(f, op), untouched |-> ExpectUntouched(f)]
 
 (* ---- the observed outcome of a real run and its verdict --------------------- *)
-(* o = [open, ret, mode, others, untouched]                                      *)
-Verdict(f, op, o) ==
-    LET e == Expected(f, op) IN
+(* o = [open, ret, mode, others, untouched, dbl]; mode: persist (the amount is   *)
+(* in the file), memory (it is pending in memory), dropped (neither), other.     *)
+(* The property lets a failure keep counts in memory or drop them, so "dropped"  *)
+(* is accepted where "memory" is expected.                                       *)
+ModeAccepts(want, got) == \/ want = "any"
+                          \/ want = got
+                          \/ (want = "memory" /\ got = "dropped")
+(* what the property forbids whatever the damage: "ok" or the broken clause *)
+Safety(o) ==
     IF o.ret # "ok" THEN o.ret                               \* panic / memfault / hang / blocked
     ELSE IF o.others THEN "other-counter-changed"
+    ELSE IF o.dbl THEN "double-unmap"
+    ELSE "ok"
+(* the documented class: "ok" or the clause in which model and code differ *)
+ClassCheck(f, op, o) ==
+    LET e == Expected(f, op) IN
+    IF o.ret # "ok" THEN "ok"
     ELSE IF o.open # e.open THEN "open-class"
     ELSE IF e.untouched /\ ~o.untouched THEN "parked-file-written"
-    ELSE IF e.mode # "any" /\ o.mode # e.mode THEN "mode-class"
+    ELSE IF ~ModeAccepts(e.mode, o.mode) THEN "mode-class"
     ELSE "ok"
+Verdict(f, op, o) == IF Safety(o) # "ok" THEN Safety(o) ELSE ClassCheck(f, op, o)
 
 (* ---- enumeration ------------------------------------------------------------- *)
 CONSTANT MaxDamage       \* number of damaged dimensions of family B
@@ -133,13 +149,13 @@ ParkedMeansMemory == exp.open = "parks" => exp.mode = "memory" /\ exp.untouched
 (* an amount is kept in memory only because of some damage, and a cycle is only  *)
 (* possible where a link was damaged                                             *)
 MemoryHasCause == exp.mode = "memory" => Damage(file) > 0
-CycleHasCause  == (file.trunc = "none" /\ Lookup(file, op)[1] = "cycle") => (file.nextC = "self" \/ file.nextE \in {"self", "cycle2"})
+CycleHasCause  == (~TooShort(file) /\ Lookup(file, op)[1] = "cycle") => (file.nextC = "self" \/ file.nextE \in {"self", "cycle2"})
 (* damage in the other bucket never matters *)
 OtherBucketIrrelevant ==
     /\ op = "addN" => ExpectMode(file, op) = ExpectMode([file EXCEPT !.headE = "ok", !.nlenC = "ok", !.nextC = "ok", !.nextE = "ok"], op)
     /\ op # "addN" => ExpectMode(file, op) = ExpectMode([file EXCEPT !.headN = "zero"], op)
 (* a lookup that finds its record does not depend on the allocation limit *)
-FoundIgnoresLimit == (file.trunc = "none" /\ file.hdr = "ok" /\ Lookup(file, op)[1] = "found" /\ ~Lookup(file, op)[2]) => exp.mode = "persist"
+FoundIgnoresLimit == (~TooShort(file) /\ file.hdr = "ok" /\ Lookup(file, op)[1] = "found" /\ ~Lookup(file, op)[2]) => exp.mode = "persist"
 (* the walk is total: it always ends in one of the four outcomes *)
 WalkTotal == Lookup(file, op)[1] \in {"found", "absent", "invalid", "cycle"}
 Sane == TypeOK /\ UndamagedPersists /\ ParkedMeansMemory /\ MemoryHasCause /\ CycleHasCause /\ OtherBucketIrrelevant /\ FoundIgnoresLimit /\ WalkTotal
